@@ -4,11 +4,11 @@ import CMacVerif.Arith
 
 Mirrors, in the order of the C++ statements,
 
-* `IonizationStateCalculator::compute_ionization_state_hydrogen`   (IonizationStateCalculator.cpp 802-820) → `h0Core`, `h0Hydrogen`
-* `IonizationStateCalculator::compute_ionization_states_metals`    (323-501) → `ratio1/2/3/CT`, `chain2/3`, `metalFractions`
-* `IonizationStateCalculator::compute_ionization_states_hydrogen_helium` (649-753) →
+* `IonizationStateCalculator::compute_ionization_state_hydrogen`   (IonizationStateCalculator.cpp 835-856) → `h0Core`, `h0Hydrogen`
+* `IonizationStateCalculator::compute_ionization_states_metals`    (352-530) → `ratio1/2/3/CT`, `chain2/3`, `metalFractions`
+* `IonizationStateCalculator::compute_ionization_states_hydrogen_helium` (678-786) →
   `hHeCoef`, `hHeInit`, `pHots`, `chOf`, `heNew`, `hNew`, `hHeIterate`, `hHeCond`, `hHeLoop`, `hHeSolve`
-* `IonizationStateCalculator::calculate_ionization_state` (one cell, 70-272) → `ionCell`
+* `IonizationStateCalculator::calculate_ionization_state` (one cell, 70-301) → `cellMetals`, `ionCell`
 * `TemperatureCalculator::calculate_temperature` (one cell, TemperatureCalculator.cpp 567-931) →
   `expOf`, `newT`, `clampLow`, `clampHigh`, `tempStep`, `tempLoop`, `temperatureCell`
   with `compute_cooling_and_heating_balance` as an *uninterpreted function parameter* `bal`.
@@ -34,9 +34,9 @@ instance (x y : α) : Decidable (feq x y) := by unfold feq; exact inferInstance
 @[inline] def nz (x : α) : Prop := ¬ (x ≤ 0.0 ∧ 0.0 ≤ x)
 instance (x : α) : Decidable (nz x) := by unfold nz; exact inferInstance
 
-/-! ## hydrogen only: closed form (802-820) -/
+/-! ## hydrogen only: closed form (835-856) -/
 
-/-- lines 807-816 as a function of `aa = 0.5 * jH / (nH * alphaH)`; the `Nat` is the branch tag -/
+/-- lines 840-852 as a function of `aa = 0.5 * jH / (nH * alphaH)`; the `Nat` is the branch tag -/
 def h0CoreB (aa : α) : α × Nat :=
   let bb := 2.0 / aa
   if bb < 1.0e-10 then
@@ -55,7 +55,7 @@ def h0HydrogenB (alphaH jH nH : α) : α × Nat :=
 
 def h0Hydrogen (alphaH jH nH : α) : α := (h0HydrogenB alphaH jH nH).1
 
-/-! ## metals (323-501) -/
+/-! ## metals (352-530) -/
 
 /-- `C21`, `Ne21`:  `j / (ne * alpha)` -/
 def ratio1 (j ne a : α) : α := j / (ne * a)
@@ -172,9 +172,9 @@ def sulphur (m : MetalIn α) : Frac3 α :=
 def metalFractions (m : MetalIn α) : MetalOut α :=
   ⟨carbon m, nitrogen m, oxygen m, neon m, sulphur m⟩
 
-/-! ## coupled hydrogen / helium iteration (649-753) -/
+/-! ## coupled hydrogen / helium iteration (678-786) -/
 
-/-- loop-invariant coefficients (672-680) -/
+/-- loop-invariant coefficients (701-709) -/
 structure HHeCoef (α : Type) where
   ch1 : α
   ch2 : α
@@ -189,7 +189,7 @@ structure HHeState (α : Type) where
   h0old : α
   he0old : α
 
-/-- lines 672-680 -/
+/-- lines 701-709 -/
 def hHeCoef (alphaH alphaHe jH jHe nH aHe T : α) : HHeCoef α :=
   let alpha_e_2sP := 4.17e-20 * ArithFns.pow (T * 1.0e-4) (-0.861)
   let ch1 := alphaH * nH / jH
@@ -197,22 +197,22 @@ def hHeCoef (alphaH alphaHe jH jHe nH aHe T : α) : HHeCoef α :=
   let che := if 0.0 < jHe then alphaHe * nH / jHe else 0.0
   ⟨ch1, ch2, che, aHe, T⟩
 
-/-- initial guesses (683-697) -/
+/-- initial guesses (712-726) -/
 def hHeInit (c : HHeCoef α) : HHeState α :=
   let h0old := 0.99 * (1.0 - ArithFns.exp (-0.5 / c.ch1))
   let h0 := 0.9 * h0old
   let he0old := if 0.0 < c.che then amin (0.5 / c.che) 1.0 else 1.0
   ⟨h0, 0.0, h0old, he0old⟩
 
-/-- line 709 -/
+/-- line 738 -/
 def pHots (T he0old h0old : α) : α :=
   1.0 / (1.0 + 77.0 * he0old / ArithFns.sqrt T / h0old)
 
-/-- line 712 (`ch2` already contains one factor `AHe`; the code multiplies by `AHe` again) -/
+/-- line 741 (`ch2` already contains one factor `AHe`; the code multiplies by `AHe` again) -/
 def chOf (ch1 ch2 aHe he0old h0old pH : α) : α :=
   ch1 - ch2 * aHe * (1.0 - he0old) * pH / (1.0 - h0old)
 
-/-- lines 715-730; `h0` is the hydrogen fraction of the previous iteration; tag 0: `che == 0`,
+/-- lines 744-763; `h0` is the hydrogen fraction of the previous iteration; tag 0: `che == 0`,
 1: first-order expansion, 2: exact root -/
 def heNewB (che aHe h0 : α) : α × Nat :=
   if nz che then
@@ -223,12 +223,13 @@ def heNewB (che aHe h0 : α) : α × Nat :=
     if t1he < 1.0e-3 then
       (opAHeh0 * che_bhe, 1)
     else
-      ((bhe - ArithFns.sqrt (bhe * bhe - 4.0 * aHe * opAHeh0 * che * che)) / (2.0 * aHe * che), 2)
+      -- exact root, then `he0 = std::min(1., he0)`
+      (amin 1.0 ((bhe - ArithFns.sqrt (bhe * bhe - 4.0 * aHe * opAHeh0 * che * che)) / (2.0 * aHe * che)), 2)
   else (1.0, 0)
 
 def heNew (che aHe h0 : α) : α := (heNewB che aHe h0).1
 
-/-- lines 732-742; tag 1: first-order expansion, 2: exact root -/
+/-- lines 765-775; tag 1: first-order expansion, 2: exact root -/
 def hNewB (ch aHe he0 : α) : α × Nat :=
   let b := ch * (2.0 + aHe - he0 * aHe) + 1.0
   let ch_b := ch / b
@@ -241,16 +242,16 @@ def hNewB (ch aHe he0 : α) : α × Nat :=
 
 def hNew (ch aHe he0 : α) : α := (hNewB ch aHe he0).1
 
-/-- line 703-707: `he0old = (he0 > 0.) ? he0 : 0.` -/
+/-- lines 732-736: `he0old = (he0 > 0.) ? he0 : 0.` -/
 def he0oldOf (he0 : α) : α := if 0.0 < he0 then he0 else 0.0
 
-/-- the `ch` of one loop body (709-712) -/
+/-- the `ch` of one loop body (738-741) -/
 def chIter (c : HHeCoef α) (s : HHeState α) : α :=
   let h0old := s.h0
   let he0old := he0oldOf s.he0
   chOf c.ch1 c.ch2 c.aHe he0old h0old (pHots c.T he0old h0old)
 
-/-- one body of the `while` loop (701-748); `niter` is the counter *after* `++niter` -/
+/-- one body of the `while` loop (730-781); `niter` is the counter *after* `++niter` -/
 def hHeIterate (c : HHeCoef α) (niter : Nat) (s : HHeState α) : HHeState α :=
   let h0old := s.h0
   let he0old := he0oldOf s.he0
@@ -262,7 +263,7 @@ def hHeIterate (c : HHeCoef α) (niter : Nat) (s : HHeState α) : HHeState α :=
   else
     ⟨h0, he0, h0old, he0old⟩
 
-/-- loop condition (699-700) -/
+/-- loop condition (728-729) -/
 def hHeCond (s : HHeState α) : Prop :=
   1.0e-4 * s.h0old < ArithFns.abs (s.h0 - s.h0old) ∧
     1.0e-4 * s.he0old < ArithFns.abs (s.he0 - s.he0old)
@@ -294,7 +295,7 @@ def hHeSolve (alphaH alphaHe jH jHe nH aHe T : α) : HHeOut α :=
     let c := hHeCoef alphaH alphaHe jH jHe nH aHe T
     hHeLoop c 20 0 false (hHeInit c)
 
-/-! ## one cell of `IonizationStateCalculator::calculate_ionization_state` (70-272) -/
+/-! ## one cell of `IonizationStateCalculator::calculate_ionization_state` (70-301) -/
 
 /-- the rate part of `MetalIn` plus the 12 intensity integrals come in `m`; this function
 fills in the densities (132-137, 177-182) -/
